@@ -16,7 +16,7 @@ CLAIMED = {
              'real Multipatch and compared at partition level; detect_interfaces and a conforming-decomposition system '
              'comparison are bound to the same complexes. Exhaustive within the stated bounds, which is what an order/'
              'history property needs.',
-        note='Bounded complexes (<= 6 patches 2-D, <= 4 patches 3-D, degree <= 2, one span per patch); only reflections as '
+        note='Bounded complexes (lattices <= 6 patches 2-D / <= 4 patches 3-D, vertex rings, closed bands where two patches share two faces; degree <= 2, one span per patch); finalize and numbering queries also BETWEEN the joins; only reflections as '
              'orientation changes; assembled-system equality is numeric (1e-10). The pre-fix join loop is kept as negative control.',
         technique='TLA+ state machine (Multipatch.tla) + TLC exhaustive exploration + replay of every terminal behaviour into the real code',
         design_ref='3 C14'),
@@ -199,7 +199,7 @@ CLAIMED = {
              'BasisOK, MassOK, MomentOK, MarsdenOK, InSpaceOK, WeightedOK on every enumerated case; every case is replayed through '
              'approx.interpolate (arrays and functions, scalar/vector/matrix data, custom nodes, geo=), approx.project_L2 '
              '(Kronecker and CG path, physical vs pulled-back data), bspline.interpolate/project_L2.',
-        note='Tensor-product spaces only (the hierarchical path is covered indirectly by C03/C05, not by this check); degrees <= 4, '
+        note='Tensor-product spaces (degrees <= 4, <= 6 dofs per direction, twin knot vectors, orientation-reversing and bilinear maps) and hierarchical spaces from HRepr (polynomial reproduction exact; reproduction of arbitrary functions of the space is a known finding); '
              '<= 6 dofs per direction; outside-data normal equations exact from the spec, solved in big-integer arithmetic by the '
              'harness; CG early-stop clause only on well-conditioned maps.',
         technique='TLA+ exact rational reference enumerated and cross-checked by TLC + replay of every case through the real interpolation/projection routines',
@@ -237,7 +237,7 @@ CLAIMED = {
              'control); one case per TLC-enumerated descriptor (1-4 factors, shapes 1..3, dense/csr/LinearOperator/None, vector/'
              '(n,1)/(n,2) arguments, block layouts <= 2x3, CSR row slices/subsets) replayed with exact integer results; solver '
              'factories (make_solver, Kronecker solver, fastdiag dim 1-3) against exact integer solutions.',
-        note='Real float64 only; MKL/Pardiso branch not installed; solvers/fastdiag are floating-point factorisations compared at '
+        note='float64 operators, float64 and int64 arguments; MKL/Pardiso branch not installed; solvers/fastdiag are floating-point factorisations compared at '
              '1e-10 (numeric predicate on spec-generated cases); sampled descriptor families in quick, complete for the bounds in '
              'thorough.',
         technique='TLA+ dense definitions + code-shaped sweep models checked by TLC + replay of every TLC-enumerated descriptor on the real operators with exact integer comparison',
